@@ -40,6 +40,10 @@ KeyK(k) == Map(<< <<Nat2I(1), Nat2I(1)>>, <<Nat2I(2), Bs(<<k % 256, k \div 256>>
 AllOps == [k \in 1..10 |-> Nat2I(k)]
 Ops(n) == IF n <= 10 THEN SubSeq(AllOps, 1, n) ELSE AllOps \o [k \in 1..(n - 10) |-> Txt3(k)]
 
+RECURSIVE NestArr(_)
+NestArr(d) == IF d = 0 THEN Nat2I(1) ELSE Arr(<<NestArr(d - 1)>>)        \* d arrays around an integer
+NestSizes == {m \in Sizes : m <= 100}                                   \* (ciborium stops at 256 levels)
+RECURSIVE RecipChainV(_)
 (* ---------- "dup" ---------- *)
 DupAt(m, i, j) == [m EXCEPT ![j][1] = m[i][1]]
 Idx(n) == {1, 2, 8, 9, 16, 17, n - 1, n} \cap (1..n)
@@ -70,25 +74,31 @@ Big(fam, n) ==
            <<"Header", Map(<< <<Nat2I(2), Arr([k \in 1..n |-> Txt3(k)])>> >>)>>,            \* crit with n labels
            <<"Header", Map(<< <<Nat2I(7), Arr([k \in 1..(IF n = 1 THEN 2 ELSE n) |-> SigK(k)])>> >>)>>,   \* n counter-signatures
            <<"CoseSign1", Arr(<<Bs(Enc(Map(Ext(n)))), Map(ExtDesc(n)), Nil, B0>>)>> }
+         \cup (IF n \in NestSizes THEN { <<"Header", Map(<< <<Lbl(1), NestArr(n)>> >>)>> } ELSE {})       \* an extra value nested n deep
     [] fam = "msg" ->
          { <<"CoseSign", Arr(<<B0, EmptyMap, B1, Arr([k \in 1..n |-> SigK(k)])>>)>>,
            <<"CoseMac", Arr(<<B0, EmptyMap, B1, B1, Arr([k \in 1..n |-> RecipK(k)])>>)>>,
            <<"CoseEncrypt", Arr(<<B0, EmptyMap, Nil, Arr([k \in 1..n |-> RecipK(k)])>>)>>,
            <<"CoseRecipient", Arr(<<B0, EmptyMap, Nil, Arr([k \in 1..n |-> RecipK(k)])>>)>> }
          \cup (IF n <= 40 THEN { <<"CoseRecipient", Chain(n)>>, <<"CoseEncrypt", Arr(<<B0, EmptyMap, Nil, Arr(<<Chain(n)>>)>>)>> } ELSE {})
+         \cup (IF n \in NestSizes THEN { <<"CoseSign1", Arr(<<Bs(Enc(Map(<< <<Lbl(1), NestArr(n)>> >>))), Map(<< <<Lbl(2), NestArr(n)>> >>), Nil, B0>>)>> } ELSE {})
     [] fam = "key" ->
          { <<"CoseKey", Map(KeyPairs(n))>>,
            <<"CoseKey", Map(<< <<Nat2I(1), Nat2I(2)>>, <<Nat2I(4), Arr(Ops(n))>> >>)>>,
            <<"CoseKeySet", Arr([k \in 1..n |-> KeyK(k)])>> }
+         \cup (IF n \in NestSizes THEN { <<"CoseKey", Map(<< <<Nat2I(1), Nat2I(1)>>, <<Lbl(1), NestArr(n)>> >>)>>,
+                                          <<"CoseKeySet", Arr(<<KeyK(1), Map(<< <<Nat2I(1), Nat2I(1)>>, <<Lbl(1), NestArr(n)>> >>)>>)>> } ELSE {})
     [] fam = "cwtkdf" ->
          { <<"ClaimsSet", Map(TxtPairs(n))>>,
            <<"ClaimsSet", Map(<< <<Nat2I(1), Ta>> >> \o TxtPairs(n))>>,
            <<"CoseKdfContext", Arr(<<Nat2I(1), Arr(<<Nil, Nil, Nil>>), Arr(<<Nil, Nil, Nil>>), Arr(<<Nat2I(128), B0>>)>> \o [k \in 1..n |-> Bs(<<k % 256>>)])>> }
+         \cup (IF n \in NestSizes THEN { <<"ClaimsSet", Map(<< <<Txt3(1), NestArr(n)>> >>)>> } ELSE {})
     [] OTHER -> {}
 (* ---------- "roundtrip" (C06) and "builder" (C19): n calls on one builder ---------- *)
 RtSigE == [prot |-> EmptyProt, unprot |-> EmptyHeader, sig |-> <<>>]
 RtOk(b) == [ok |-> TRUE, bytes |-> b]
 RtAad == <<161>>
+RecipChainV(d) == [prot |-> EmptyProt, unprot |-> EmptyHeader, cipher |-> <<>>, recips |-> IF d <= 1 THEN <<>> ELSE <<RecipChainV(d - 1)>>]
 RtRecip(k) == [prot |-> EmptyProt, unprot |-> [EmptyHeader EXCEPT !.kid = <<k % 256, 1>>], cipher |-> <<>>, recips |-> <<>>]
 Tail2(ty) == <<[ev |-> "build"], [ev |-> "encode", api |-> "vec"], [ev |-> "decode", api |-> "slice", ty |-> ty, reg |-> ""]>>
 RtSteps(kind, n) ==
@@ -101,6 +111,11 @@ RtSteps(kind, n) ==
          <<[ev |-> "new", ty |-> "CoseEncrypt"]>>
          \o [k \in 1..n |-> [ev |-> "call", m |-> "add_recipient", rcp |-> RtRecip(k)]]
          \o <<[ev |-> "call", m |-> "create_ciphertext", pt |-> <<80>>, aad |-> RtAad, res |-> RtOk(<<1, 1>>)]>>
+         \o Tail2("CoseEncrypt")
+         \o <<[ev |-> "verify", m |-> "decrypt", aad |-> RtAad, res |-> [ok |-> TRUE, bytes |-> <<6>>]]>>
+    [] kind = "chain" ->         \* one recipient that nests n levels of recipients
+         <<[ev |-> "new", ty |-> "CoseEncrypt"], [ev |-> "call", m |-> "add_recipient", rcp |-> RecipChainV(n)],
+           [ev |-> "call", m |-> "create_ciphertext", pt |-> <<80>>, aad |-> RtAad, res |-> RtOk(<<1, 1>>)]>>
          \o Tail2("CoseEncrypt")
          \o <<[ev |-> "verify", m |-> "decrypt", aad |-> RtAad, res |-> [ok |-> TRUE, bytes |-> <<6>>]]>>
     [] kind = "mac" ->
@@ -121,7 +136,7 @@ RtSteps(kind, n) ==
          <<[ev |-> "new", ty |-> "ClaimsSet"]>>
          \o [k \in 1..n |-> [ev |-> "call", m |-> "text_claim", txt |-> Txt3(k).s, val |-> Nat2I(k % 24)]]
          \o <<[ev |-> "build"], [ev |-> "encode", api |-> "vec"], [ev |-> "decode", api |-> "slice", ty |-> "ClaimsSet", reg |-> ""]>>
-RtCases == {[k |-> "rt", kind |-> kd, n |-> n] : kd \in (IF Fam = "roundtrip" THEN {"sign", "encrypt", "mac"} ELSE {"header", "key", "claims"}),
+RtCases == {[k |-> "rt", kind |-> kd, n |-> n] : kd \in (IF Fam = "roundtrip" THEN {"sign", "encrypt", "mac", "chain"} ELSE {"header", "key", "claims"}),
                                                      n \in {m \in Sizes : m <= 40}}      \* sessions are quadratic in n for TLC
 CanonCases == {[k |-> "canon", n |-> n, ord |-> o] : n \in Sizes, o \in {"Lexicographic", "LengthFirstLexicographic"}}
 
@@ -157,6 +172,7 @@ InvRt == go /\ C.k = "rt" =>
   LET o == RtObs IN
   /\ \A i \in 1..Len(o) : o[i].kind = "ok"
   /\ C.kind = "sign" => (Len(o[Len(o) - 1].val[1].sigs) = C.n /\ Last(o).cb[1] = <<(C.n) % 256, (C.n) \div 256>> /\ Last(o).cb[2] = Last(o[C.n + 2].cb))
+  /\ C.kind = "chain" => Len(o[Len(o) - 1].val[1].recips) = 1
   /\ C.kind \in {"encrypt", "mac"} => (Len(o[Len(o) - 1].val[1].recips) = C.n /\ Last(o).cb[2] = Last(o[C.n + (IF C.kind = "mac" THEN 3 ELSE 2)].cb))
   /\ C.kind = "header" => Len(Last(o).val[1].rest) = C.n
   /\ C.kind = "key" => Len(Last(o).val[1].params) = C.n
@@ -187,7 +203,7 @@ Emit == go =>
                         expect |-> [accept |-> FALSE, val |-> <<>>, err |-> "DuplicateMapKey", pinerr |-> TRUE, errprop |-> "C12", judge |-> TRUE]]))
     [] C.k = "big" ->
          LET ty == C.c[1] item == C.c[2]
-             deep == Depth(item) > 24 IN          \* beyond what the JSON reader of the harness nests: bytes and acceptance only
+             deep == Depth(item) > 150 IN          \* beyond what the JSON reader of the harness nests: bytes and acceptance only
          /\ IF deep
             THEN PrintT(ToJson([kind |-> "decode", props |-> <<PropOf(ty), "C01">>, ty |-> ty, reg |-> "", novalue |-> TRUE, nt |-> TRUE,
                                 wires |-> <<Enc(item), EncS(item, Strat2(item))>>,
